@@ -307,6 +307,14 @@ def C14(ctx):
     ctx.run(cases, nontrivial=lambda c: c['key'] != 'N/', runtime=True, switches=ALL)
 
 
+def C16(ctx):
+    import det
+    ctx.rules.append('WireConfig: the configuration lattice {module, module+vendor, GOPATH, GOPATH+vendor} x {2 checkout locations} x {wire gen . in the package dir, ./app from the root, ./..., import path} x {alone, with three other packages} x repetitions, '
+                     'enumerated by TLC and set up for real, for three programs (many imports incl. two packages of the same name, a vendored third-party package, anonymous import, 7 values, 6 injectors in two files, copied declarations; small; many values); '
+                     'non-trivial = distinct (program, configuration) ignoring repetition; judge (WireConfigJudge): exit 0, all digests of a program equal, no absolute path / host name / time stamp / vendor path in the bytes')
+    det.run(ctx, 2 if ctx.quick else 6, sample=90 if ctx.quick else None)
+
+
 def C19(ctx):
     import cli
     ctx.rules.append('every program of families G (n<=3), K, Q, B, U run through gen AND check (same verdict, same diagnostic classes per package); '
@@ -337,6 +345,7 @@ PROPS = {
     'C12': dict(fn=C12, level='model_checking'),
     'C13': dict(fn=C13, level='exploration'),
     'C14': dict(fn=C14, level='exploration'),
+    'C16': dict(fn=C16, level='exploration'),
     'C17': dict(fn=C17, level='model_checking'),
     'C18': dict(fn=C18, level='model_checking'),
     'C19': dict(fn=C19, level='model_checking'),
